@@ -1851,7 +1851,24 @@ func (s *nvSim) commit() {
 		// nothing was allocated: the real Reserve (plugin-glue cycles) finds nothing to record
 		if c.cs != nil {
 			if st := s.pl.Reserve(context.TODO(), c.cs, c.pod.obj, c.node); !st.IsSuccess() {
-				s.r.HarnessFail("Reserve of a cycle without an allocation failed: %s", st.Message())
+				// Without an allocation in the cycle state the real Reserve looks the node up again; the node was deleted
+				// since the allocation half of the cycle (the fake handle serves the API store as the snapshot). A failed
+				// Reserve ends the attempt the way kube-scheduler ends it: Unreserve, the pod goes back to the queue.
+				if s.nodes[c.node] != nil {
+					s.r.HarnessFail("Reserve of a cycle without an allocation failed although node %s exists: %s", c.node, st.Message())
+				}
+				s.pl.Unreserve(context.TODO(), c.cs, c.pod.obj, c.node)
+				delete(s.assumed, c.pod.name)
+				if cur := s.pods[c.pod.name]; cur != nil && cur.node == "" {
+					s.queue[c.pod.name] = cur
+				}
+				s.r.Probe("failed-attempt:reserve-of-a-cycle-that-allocates-nothing-fails(node deleted)")
+				s.r.Event("reserve %s on %s failed: %s; unreserve", c.pod.name, c.node, st.Message())
+				return
+			}
+			if state, st := getPreFilterState(c.cs); !st.IsSuccess() || state.allocation != nil {
+				// not reachable: a node's policy does not change while a cycle on it is in flight
+				s.r.HarnessFail("Reserve of a cycle that had nothing to allocate produced an allocation")
 			}
 		}
 		s.binds = append(s.binds, c)
